@@ -512,7 +512,7 @@ def run_case(ck, s, drv, c, pki, wd, reqs):
                     + [f"{hexs(cb)}:{hx(db)}" for cb, db in cmds])
     real = "ok:" + img.hex() + ";" + (md_data.hex() if md_data else hashlib.sha256(b"").hexdigest()) + ";" + \
            (md_csf.hex() if md_csf else hashlib.sha256(b"").hexdigest())
-    reqs.append((cid, "build", line, (real, heuristic_ok)))
+    reqs.append((cid, "build", line, (real, heuristic_ok, None if auth else app_heuristic_ok(img, e_app, app_off))))
     reqs.append((cid, "parse", "parse " + img.hex(), real_parse))
     reqs.append((cid, "check", f"check {img.hex()} {hexs(c['dek']) if enc else 'N'}", (c, img, csf_off, app16, md_csf, md_data)))
 
@@ -657,8 +657,11 @@ def settle(ck, s, drv, reqs):
     answers = drv.batch([r[2] for r in reqs])
     for (cid, kind, _line, real), ans in zip(reqs, answers):
         if kind == "build":
-            real, visible = real
+            real, visible, plain_vis = real
             got = ";".join(ans.split(";")[:3])
+            if plain_vis is not None and ans.startswith("ok:") and ";vis=" in ans:
+                s.compare((cid, "AppVisible"), "vis=" + ("true" if plain_vis else "false"), "vis=" + ans.split(";vis=")[1].split(";")[0],
+                          "the decidable predicate AppVisible (hypothesis of hab_roundtrip_unsigned) differs from the reset-vector test evaluated on the real image")
             if visible and ans.startswith("ok:"):
                 s.compare((cid, "model round trip"), "rt=true", ans.rsplit(";", 1)[-1], "model: parse (export cfg) differs from the expected segments (theorem hab_roundtrip_partial)")
             if got != real:
